@@ -351,7 +351,10 @@ def run_par(case, ctx):
     deterministically; sys.monitoring LINE events on lfr.py inject yields (sleep(0)) to vary the interleaving"""
     rng = gen.rng_for(case["seed"])
     kw = draw_params(rng)
-    kw["rates_tracked"] = list(RATES)
+    if case["seed"][-1] % 2 == 0:
+        kw["rates_tracked"] = list(RATES)  # otherwise the drawn subset (possibly a single rate): untracked rates must stay out in both modes
+    else:
+        ctx.count("parallel_runs_on_a_subset_of_rates")
     pairs = gen_pairs(rng, int(rng.integers(60, 140)))
     stub = stub_bounds(kw["time_decay_factor"], kw["warning_level"], kw["detect_level"])
     seq = LinearFourRates(**kw)
